@@ -873,6 +873,12 @@ fn exec(op: &str, args: &[Sexp]) -> Ans {
 	macro_rules! tr { ($e:expr) => { match $e { Ok(x) => x, Err(e) => return Ans::BadOp(e) } } }
 	match (op, args) {
 		("code-write", [i, e, l, v]) => code_write(&tr!(parse_req(i, e, l, v))),
+		// not generated; for reports: lets a panic of the writer escape so that the runner prints `panic <file:line>`
+		("code-write-raw", [i, e, l, v]) => {
+			let tree = tr!(build_tree(&tr!(parse_req(i, e, l, v))));
+			let mut out = Vec::new();
+			match duke::write_class(&mut out, &tree) { Ok(()) => Ans::Ok(blob(&out)), Err(_) => Ans::err() }
+		}
 		("oracle-write-read" | "oracle-wellformed", [i, e, l, v]) => oracle(op, &tr!(parse_req(i, e, l, v))),
 		("pool-put", [i]) => {
 			let insns = tr!(parse_insns(i));
